@@ -10,7 +10,7 @@ FAMILY = ["euclidean", "squared_euclidean", "average_euclidean", "log_euclidean"
 def tie_free_points(rng, n, m, metric):
     dim = rng.randint(1, 4)
     # the algorithms are order-only, so the scale of the features must not matter: a third of the sets are tiny
-    sc = rng.choice([1.0, 1.0, 1e-6, 1e-11])
+    sc = rng.choice([1.0, 1.0, 1e-6, 1e-11, 1e5, 1e7])   # also coordinates in metres: distances beyond MAX_ARC_WEIGHT
     for _ in range(100):
         X = [[sc * rng.uniform(-10, 10) for _ in range(dim)] for _ in range(n + m)]
         D = metric_matrix(metric, X)
@@ -129,6 +129,27 @@ def main(tier, seed):
                     if nviol <= 3:
                         rep.violation("%s is not a strictly increasing transform of the squared Euclidean distance on %s data" % (mt, arr.dtype),
                                       dict(X=Xi, dtype=str(arr.dtype), labels=labels, m=m, metric=mt), key="rescale")
+        if arr is None:
+            # float data: a family member may merge two doubles only when they are a few ulps apart; an inversion, or a
+            # merge of clearly different distances, means the identifier is not a strictly increasing transform
+            Dm = {mt: metric_matrix(mt, X, arr) for mt in FAMILY}
+            cells = sorted((Dm[base][a][b], a, b) for a in range(n) for b in range(n + m) if a != b)
+            for mt in FAMILY:
+                if runs[mt][0] == "error" or mt == base:
+                    continue
+                bad = None
+                for (v0, a0, b0), (v1, a1, b1) in zip(cells, cells[1:]):
+                    t0, t1 = Dm[mt][a0][b0], Dm[mt][a1][b1]
+                    # tolerated merges: a few ulps apart, or absorbed by the `+ 1` inside the logarithm (binary64)
+                    absorbed = (1.0 + v0 == 1.0 + v1) or (1.0 + v0 ** 0.5 == 1.0 + v1 ** 0.5)
+                    if t1 < t0 or (t1 == t0 and not absorbed and v1 > v0 * (1 + 1e-9) + 1e-300):
+                        bad = (a0, b0, v0, t0, a1, b1, v1, t1); break
+                if bad:
+                    nviol += 1
+                    if nviol <= 3:
+                        rep.violation("%s is not a strictly increasing transform of squared_euclidean: pairs (%d,%d) and (%d,%d) have squared distances %r < %r but %s values %r, %r"
+                                      % (mt, bad[0], bad[1], bad[4], bad[5], bad[2], bad[6], mt, bad[3], bad[7]),
+                                      dict(X=X, labels=labels, m=m, metric=mt), key="rescale")
         keep = [mt for mt in FAMILY if ranks[mt] == ranks[base]]
         stats["rescale_discarded_ties"] += len(FAMILY) - len(keep)    # the transform merged two doubles: a tie appeared
         stats["rescale_groups"] += 1
